@@ -547,6 +547,23 @@ func (c *TermCtx) bvCmp(op string, a, b *Term) *Term {
 			c.Axioms = append(c.Axioms, c.Eq(t, c.ILe(na, nb)))
 		}
 	}
+	if (op == "bvslt" || op == "bvsle") && !t.open && (a.Op == "int2bv" || b.Op == "int2bv") && !c.bridgeSeen[t.id] {
+		// signed order agrees with the order of the two's complement values (bridge fact for hybrid mode)
+		c.bridgeSeen[t.id] = true
+		w := a.Sort.W
+		half := c.Int(new(big.Int).Lsh(big.NewInt(1), uint(w-1)))
+		full := c.Int(new(big.Int).Lsh(big.NewInt(1), uint(w)))
+		sval := func(x *Term) *Term {
+			n := c.BV2Nat(x)
+			return c.Ite(c.ILt(n, half), n, c.ISub(n, full))
+		}
+		sa, sb := sval(a), sval(b)
+		if op == "bvslt" {
+			c.Axioms = append(c.Axioms, c.Eq(t, c.ILt(sa, sb)))
+		} else {
+			c.Axioms = append(c.Axioms, c.Eq(t, c.ILe(sa, sb)))
+		}
+	}
 	return t
 }
 func (c *TermCtx) BVUlt(a, b *Term) *Term { return c.bvCmp("bvult", a, b) }
